@@ -17,7 +17,8 @@ RULE = (
     "cases are generated paths of 1..4 subpaths (open, closed with zero and non-zero closes, single-segment, "
     "move-only, all segment kinds, and subpaths retracing a few vertices so that value-equal and mutually reversed "
     "segments occur at arbitrary, also mirrored, positions) with a history of 1..6 operations drawn from: reverse the whole path, reverse "
-    "subpath i, multiply by a similarity/reflection and reify; the library path is compared with the model after "
+    "subpath i, multiply by a similarity/reflection and reify, multiply subpath i in place through its view; in a third "
+    "of the cases the path is measured (length, point, bbox) before every step; the library path is compared with the model after "
     "every step. Non-trivial = >= 2 subpaths or a closed subpath with a non-zero close, containing a curve; distinct "
     "by the case."
 )
@@ -28,9 +29,12 @@ ASSUMPTIONS = [
     "move, adjacent closes) are known finding KF-REVERSE-NO-MOVE; they are generated in a separate part and only "
     "reported under that finding",
     "Move.start is informational and ignored",
+    "multiplying a subpath in place through its view is not applied to paths that contain a move-only subpath: the "
+    "start recorded by the following move is then out of date (test_subpath_imult_sideeffect pins that it scales with "
+    "its own subpath) and a later reverse re-links the lone move to it; a lone move draws nothing",
 ]
 TOLERANCES = {"point": "1e-9 * S", "arc point": "(1e-9 + 1e-15 * ratio^2) * S + max(4, ratio) * closure_gap(arc)"}
-MANDATORY_LABELS = {"quick": ["op:rev", "op:revsub", "op:mul", "shape:closed-nonzero", "shape:closed-zero", "shape:open", "shape:multi", "shape:repeated-segment", "history:double-reverse", "history:measured"]}
+MANDATORY_LABELS = {"quick": ["op:rev", "op:revsub", "op:mul", "op:submul", "shape:closed-nonzero", "shape:closed-zero", "shape:open", "shape:multi", "shape:repeated-segment", "history:double-reverse", "history:measured"]}
 MANDATORY_LABELS["thorough"] = MANDATORY_LABELS["quick"]
 
 TS = [0.0, 0.2, 0.5, 0.8, 1.0]
@@ -87,11 +91,13 @@ def decode(d, move_led=True):
         segs.append(["Z"])
     ops = []
     for _ in range(d.int(1, 6)):
-        k = d.choice(["rev", "rev", "revsub", "revsub", "mul"])
+        k = d.choice(["rev", "rev", "revsub", "revsub", "mul", "submul"] if move_led else ["rev", "rev", "revsub", "revsub", "mul"])
         if k == "rev":
             ops.append(["rev"])
         elif k == "revsub":
             ops.append(["revsub", d.below(4)])
+        elif k == "submul":
+            ops.append(["submul", d.below(4), gen.matrix(d, classes=ISO)])
         else:
             ops.append(["mul", gen.matrix(d, classes=ISO)])
     if d.chance(1, 4):
@@ -277,6 +283,21 @@ def check(case):
                 i = op[1] % len(subs)
                 lsubs[i].reverse()
                 subs[i] = model_reverse_sub(subs[i])
+            elif op[0] == "submul" and any(s["move"] is not None and not s["drawn"] and s["close"] is None for s in subs):
+                o.label("submul:skipped-lone-move")
+                continue
+            elif op[0] == "submul":
+                # the transform applied in place through a subpath view: only that subpath of the backing path moves
+                lsubs = list(p.as_subpaths())
+                if len(lsubs) != len(subs):
+                    return fail(o.violation("subpath-count", "%s: as_subpaths gives %d, model %d" % (where, len(lsubs), len(subs))))
+                i = op[1] % len(subs)
+                M = op[2]["m"]
+                lsubs[i] *= lib.mk_matrix(M)
+                S = max(S, S * gen.mat_norm(M) * 2 + abs(M[4]) + abs(M[5]))
+                s0 = subs[i]
+                subs[i] = {"own_move": s0["own_move"], "move": s0["move"].mapped(M) if s0["move"] else None, "drawn": [m.mapped(M) for m in s0["drawn"]],
+                           "close": s0["close"].mapped(M) if s0["close"] else None}
             else:
                 M = op[1]["m"]
                 p *= lib.mk_matrix(M)
@@ -306,5 +327,5 @@ def check(case):
             return o.known("KF-REVERSE-NO-MOVE", "%s: %s" % (type(e).__name__, e))
         raise
     curved = any(s[0] in "QCA" for s in case["segs"])
-    o.nontrivial = curved and ("multi" in shapes or "closed-nonzero" in shapes) and any(op[0] != "mul" for op in ops)
+    o.nontrivial = curved and ("multi" in shapes or "closed-nonzero" in shapes) and any(op[0] in ("rev", "revsub") for op in ops)
     return o.ok()
